@@ -19,8 +19,8 @@ Definition of structural equality (read off Expression.__hash__ / __eq__ in sqlg
   * a None/False element inside a list arg is a position-holding "empty" element;
   * scalar values compare with Python equality (True == 1 == 1.0);
   * comments, types, meta and parent links are not part of equality.
-The hash folds a one-element list arg and a scalar arg to the same value; canon() keeps them distinct (a list arg
-holding a scalar is not a well-formed tree, the enumerators never build one).
+  * a list arg contributes its elements one after the other under the arg key, so a one-element list arg and the
+    same value stored as a scalar arg are the same by definition (only an ill-typed tree can tell them apart).
 """
 import os
 import sys
@@ -188,10 +188,11 @@ def _type_fp(dt):
         return None
     if not isinstance(dt, Expr):
         return ("non-expr-type", repr(dt))
-    return _struct(dt, ids=False)
+    # root_parent=False: annotate_types may alias a Cast's type with its own `to` child, a copy un-aliases it
+    return _struct(dt, ids=False, root_parent=False)
 
 
-def _struct(tree, ids):
+def _struct(tree, ids, root_parent=True):
     listing = nodes(tree)
     pos = {}
     for p, (n, *_rest) in enumerate(listing):
@@ -207,7 +208,9 @@ def _struct(tree, ids):
             else:
                 args.append((ak, "S", _scalar(av)))
         par = n.parent
-        if par is None:
+        if holder is None and not root_parent:
+            ppos = "<root>"
+        elif par is None:
             ppos = None
         elif id(par) in pos:
             ppos = pos[id(par)]
@@ -216,7 +219,7 @@ def _struct(tree, ids):
         rec = (
             _cls(n),
             tuple(args),
-            (ppos, n.arg_key, n.index),
+            (ppos, n.arg_key, n.index) if (holder is not None or root_parent) else ("<root>", None, None),
             (holder is not None and pos[id(holder)], k, i),
             tuple(n.comments) if n.comments is not None else None,
             _type_fp(n._type),
@@ -235,11 +238,12 @@ def sql_text(tree, dialect=None):
         return ("raises", type(e).__name__)
 
 
-def fingerprint(tree, ids=True, sql=True, hashes=False):
+def fingerprint(tree, ids=True, sql=True, hashes=False, root_parent=True):
     """deep snapshot: per node in pre-order (class, args with scalar values, (parent position, arg_key, index),
     actual storage position, comments, type structure, meta repr [, id]) plus the generated default-dialect SQL.
-    hashes=True additionally records the cached _hash of every node."""
-    fp = (_struct(tree, ids),)
+    hashes=True additionally records the cached _hash of every node; root_parent=False leaves the root's own
+    parent/arg_key/index out (a whole tree handed to a builder is legitimately adopted by the new parent)."""
+    fp = (_struct(tree, ids, root_parent),)
     if hashes:
         fp = fp + (tuple(n._hash for n, *_ in nodes(tree)),)
     if sql:
@@ -292,7 +296,9 @@ def canon(node):
         if type(v) is list:
             if not v:
                 continue
-            items.append((k, ("<list>", tuple(_ABSENT if (x is None or x is False) else _canon_val(x, raw=False) for x in v))))
+            # the hash folds list elements one by one under the arg key: [x] and x are the same by definition
+            for x in v:
+                items.append((k, _ABSENT) if (x is None or x is False) else (k, _canon_val(x, raw=False)))
         else:
             items.append((k, _canon_val(v, raw=False)))
     return (type(node).__name__, tuple(items))
